@@ -240,15 +240,16 @@ def build_extraction(log):
     return exe
 
 
-def build_harness(log):
+def build_harness(log, race=False):
     """Always rebuilt from /repo's current working tree (go's build cache makes
-    this incremental)."""
+    this incremental). race=True: a -race build (needs cgo)."""
     src = os.path.join(VERIF, "harness")
-    exe = os.path.join(BUILD, "harness")
+    exe = os.path.join(BUILD, "harness-race" if race else "harness")
     sh(["cp", os.path.join(REPO, "go.sum"), os.path.join(src, "go.sum")])
     env = dict(GOENV)
-    env["CGO_ENABLED"] = "1" if os.environ.get("VERIF_CGO") else "0"
-    rc, out = sh(["go", "build", "-tags", "verif", "-o", exe + ".tmp", "."], cwd=src, env=env, timeout=900)
+    env["CGO_ENABLED"] = "1" if (race or os.environ.get("VERIF_CGO")) else "0"
+    cmd = ["go", "build", "-tags", "verif"] + (["-race"] if race else []) + ["-o", exe + ".tmp", "."]
+    rc, out = sh(cmd, cwd=src, env=env, timeout=1500)
     log.append(("go build -tags verif ./harness (replace rdpgw => %s)" % REPO, rc))
     if rc != 0:
         raise RuntimeError("cannot build the harness against %s:\n%s" % (REPO, tail(out, 40)))
@@ -302,11 +303,18 @@ def run_stream(harness, modelrun, stream, tier, seed, workdir, log, extra_args=(
     cmd = [harness, "-tier", tier, "-seed", str(seed), "-out", cases_p, "-stats", stats_p, "-workdir", workdir] + \
         list(extra_args) + [stream]
     t0 = time.time()
-    env = dict(os.environ, TMPDIR=workdir)
+    env = dict(os.environ, TMPDIR=workdir, GORACE="exitcode=0 log_path=%s" % os.path.join(workdir, "race"))
     rc, out = sh(["timeout", str(timeout)] + cmd, env=env)
     log.append(("harness %s (%.1fs)" % (stream, time.time() - t0), rc))
     if rc != 0:
-        raise RuntimeError("harness stream %s failed (rc=%d):\n%s" % (stream, rc, tail(out, 40)))
+        # the code under test runs inside the harness process: a runtime abort of the gateway code is an observation
+        m = re.search(r"fatal error: (concurrent map [a-z ]+|all goroutines are asleep[^\n]*)|panic: (concurrent write to websocket connection)", out)
+        if m:
+            what = (m.group(1) or m.group(2)).strip().replace(" ", "-")
+            with open(cases_p, "a") as f:
+                f.write("crash-1\tcrash\t%s\tprocess-aborted\n" % what)
+        else:
+            raise RuntimeError("harness stream %s failed (rc=%d):\n%s" % (stream, rc, tail(out, 40)))
     return load_cases(cases_p, modelrun, log), load_stats(stats_p)
 
 
